@@ -17,6 +17,9 @@ import (
 	"regexp"
 	"sort"
 	"strings"
+	"sync"
+	"syscall"
+	"time"
 
 	"wa-lang.org/wa/internal/3rdparty/wazero"
 	"wa-lang.org/wa/internal/3rdparty/wazero/api"
@@ -260,7 +263,12 @@ type block struct {
 
 // Monitor is the host-side state for ONE module instance.
 type Monitor struct {
+	mu     sync.Mutex // host callbacks vs. the watchdog's snapshot of a hung case
 	Poison bool
+	// MaxEvents: event budget per case (0 = none); exceeding it makes the host callback panic,
+	// which ends the call with a trap instead of an endless release loop.
+	MaxEvents int64
+	caseEvents int64
 	// RecordKinds: mark kinds for which a census Record is stored.
 	RecordKinds map[int]bool
 	// OpKind: the mark kind that sets Violation.Mark.
@@ -294,8 +302,11 @@ func NewMonitor(poison bool) *Monitor {
 
 // BeginCase clears the per-case results; the heap state (live set, counts) carries over.
 func (mo *Monitor) BeginCase() {
+	mo.mu.Lock()
+	defer mo.mu.Unlock()
 	mo.Violations = nil
 	mo.Records = nil
+	mo.caseEvents = 0
 	mo.curMark = -1
 	mo.seenClass = map[string]bool{}
 	mo.ringPos, mo.ringFull = 0, false
@@ -303,6 +314,11 @@ func (mo *Monitor) BeginCase() {
 
 func (mo *Monitor) ev(k string, p uint32, a int64) {
 	mo.NEvents++
+	mo.caseEvents++
+	if mo.MaxEvents > 0 && mo.caseEvents > mo.MaxEvents {
+		mo.caseEvents = 0
+		panic(fmt.Sprintf("rcmon: more than %d heap events in one case (endless loop?)", mo.MaxEvents))
+	}
 	mo.ring[mo.ringPos] = Event{k, p, a}
 	mo.ringPos++
 	if mo.ringPos == ringSize {
@@ -485,22 +501,42 @@ func (mo *Monitor) onMark(kind, k int, heapPtr uint32) {
 // ---------------------------------------------------------------------------------------------
 // Running
 
-// Program is an instrumented, assembled program bound to one wazero runtime (compiled once,
-// instantiated as often as needed).
+// Program is an instrumented, assembled program bound to one wazero runtime: compiled by the
+// engine once, instantiated as often as needed (several instances may be alive; calls are
+// sequential).
 type Program struct {
 	Name string
 	ctx  context.Context
 	rt   wazero.Runtime
 	cm   wazero.CompiledModule
 	conf wazero.ModuleConfig
-	out  bytes.Buffer
-	mon  *Monitor // the monitor of the current instance; host functions dispatch to it
-	mod  api.Module
-	ninst int
+	cur  *Instance // the instance whose call is in progress; host functions dispatch to it
+	seq  int
 
-	Poison      bool
 	RecordKinds map[int]bool
 	OpKind      int
+	MaxEvents   int64
+}
+
+// Instance is one module instance with its own monitor and output buffer.
+type Instance struct {
+	p      *Program
+	Poison bool
+	mon    *Monitor
+	mod    api.Module
+	omu    sync.Mutex
+	out    bytes.Buffer
+}
+
+type progWriter struct{ p *Program }
+
+func (w progWriter) Write(b []byte) (int, error) {
+	if in := w.p.cur; in != nil {
+		in.omu.Lock()
+		in.out.Write(b)
+		in.omu.Unlock()
+	}
+	return len(b), nil
 }
 
 // a minimal valid module: lets us obtain a *wawazero.Module (whose JsInstantiate method defines
@@ -510,8 +546,8 @@ var emptyWasm = []byte{0x00, 0x61, 0x73, 0x6d, 0x01, 0x00, 0x00, 0x00}
 // NewProgram compiles wasm on a fresh runtime that has the repository's own syscall_js host
 // module (the imports every compiled Wa program has under the default js target) plus the verif
 // module.
-func NewProgram(name string, wasm, fset []byte, poison bool) (*Program, error) {
-	p := &Program{Name: name, ctx: context.Background(), Poison: poison, RecordKinds: map[int]bool{}}
+func NewProgram(name string, wasm, fset []byte) (*Program, error) {
+	p := &Program{Name: name, ctx: context.Background(), RecordKinds: map[int]bool{}}
 	shell, err := wawazero.BuildModule(name, emptyWasm, fset)
 	if err != nil {
 		return nil, fmt.Errorf("rcmon: host shell: %v", err)
@@ -535,36 +571,59 @@ func NewProgram(name string, wasm, fset []byte, poison bool) (*Program, error) {
 		return nil, fmt.Errorf("rcmon: syscall_js: %v", err)
 	}
 	shell.Close()
+	mon := func() *Monitor { return p.cur.mon }
 	_, err = p.rt.NewHostModuleBuilder("verif").
 		NewFunctionBuilder().WithFunc(func(ctx context.Context, m api.Module, ptr, size uint32) {
-		p.mon.onMalloc(m.Memory(), ctx, ptr, size)
+		mo := mon()
+		mo.mu.Lock()
+		defer mo.mu.Unlock()
+		mo.onMalloc(m.Memory(), ctx, ptr, size)
 	}).Export("on_malloc").
 		NewFunctionBuilder().WithFunc(func(ctx context.Context, m api.Module, ptr uint32) {
-		p.mon.onFree(m.Memory(), ctx, ptr)
+		mo := mon()
+		mo.mu.Lock()
+		defer mo.mu.Unlock()
+		mo.onFree(m.Memory(), ctx, ptr)
 	}).Export("on_free").
 		NewFunctionBuilder().WithFunc(func(ctx context.Context, m api.Module, ptr, n uint32) {
-		p.mon.onHeapAlloc(m.Memory(), ctx, ptr, n)
+		mo := mon()
+		mo.mu.Lock()
+		defer mo.mu.Unlock()
+		mo.onHeapAlloc(m.Memory(), ctx, ptr, n)
 	}).Export("on_heapalloc").
 		NewFunctionBuilder().WithFunc(func(ctx context.Context, m api.Module, ptr, ic, rf, is uint32) {
-		p.mon.onInit(ptr)
+		mo := mon()
+		mo.mu.Lock()
+		defer mo.mu.Unlock()
+		mo.onInit(ptr)
 	}).Export("on_init").
 		NewFunctionBuilder().WithFunc(func(ctx context.Context, m api.Module, ptr uint32) {
-		p.mon.onRetain(m.Memory(), ctx, ptr)
+		mo := mon()
+		mo.mu.Lock()
+		defer mo.mu.Unlock()
+		mo.onRetain(m.Memory(), ctx, ptr)
 	}).Export("on_retain").
 		NewFunctionBuilder().WithFunc(func(ctx context.Context, m api.Module, ptr uint32) {
-		p.mon.onRelease(m.Memory(), ctx, ptr)
+		mo := mon()
+		mo.mu.Lock()
+		defer mo.mu.Unlock()
+		mo.onRelease(m.Memory(), ctx, ptr)
 	}).Export("on_release").
 		NewFunctionBuilder().WithFunc(func(ctx context.Context, m api.Module, ptr uint32) {
 	}).Export("on_release_done").
 		NewFunctionBuilder().WithFunc(func(ctx context.Context, m api.Module, kind, k, hp uint32) {
-		p.mon.onMark(int(int32(kind)), int(int32(k)), hp)
+		mo := mon()
+		mo.mu.Lock()
+		defer mo.mu.Unlock()
+		mo.onMark(int(int32(kind)), int(int32(k)), hp)
 	}).Export("on_mark").
 		Instantiate(p.ctx, p.rt)
 	if err != nil {
 		p.rt.Close(p.ctx)
 		return nil, fmt.Errorf("rcmon: verif module: %v", err)
 	}
-	p.conf = wazero.NewModuleConfig().WithStdout(&p.out).WithStderr(&p.out)
+	w := progWriter{p}
+	p.conf = wazero.NewModuleConfig().WithStdout(w).WithStderr(w)
 	return p, nil
 }
 
@@ -575,66 +634,71 @@ func (p *Program) Close() {
 	}
 }
 
-// Reset discards the current instance; the next Call runs on a fresh instance (and monitor) with
-// the given poisoning mode. The engine-compiled module is shared.
-func (p *Program) Reset(poison bool) {
-	if p.mod != nil {
-		p.mod.Close(p.ctx)
-		p.mod = nil
-	}
-	p.Poison = poison
-}
+// NewInstance declares an instance; the module is instantiated lazily by the first Call and
+// again after every trap.
+func (p *Program) NewInstance(poison bool) *Instance { return &Instance{p: p, Poison: poison} }
 
-// Live reports whether an instance is currently alive (no trap since it was made).
-func (p *Program) Live() bool { return p.mod != nil }
+// Live reports whether a module instance is currently alive (no trap since it was made).
+func (in *Instance) Live() bool { return in.mod != nil }
 
-// Monitor of the current instance (nil before the first call).
-func (p *Program) Monitor() *Monitor { return p.mon }
+// Monitor of the current module instance (nil before the first call).
+func (in *Instance) Monitor() *Monitor { return in.mon }
 
 // CallResult is the outcome of one exported function call.
 type CallResult struct {
 	Out        string
-	Status     string // "ok" / "trap"
+	Status     string // "ok" / "trap" / "hang" (watchdog) / "skipped" (not run because an earlier case hung)
 	Err        string
+	Mark       int // last operation mark seen (meaningful for trap/hang)
 	Violations []Violation
 	Records    []Record
-	Fresh      bool // ran on a fresh instance
 }
 
-func (p *Program) instantiate() error {
-	if p.mod != nil {
-		p.mod.Close(p.ctx)
-		p.mod = nil
+func (in *Instance) instantiate() error {
+	p := in.p
+	if in.mod != nil {
+		in.mod.Close(p.ctx)
+		in.mod = nil
 	}
-	p.mon = NewMonitor(p.Poison)
-	p.mon.RecordKinds, p.mon.OpKind = p.RecordKinds, p.OpKind
-	p.ninst++
-	p.out.Reset()
-	mod, err := p.rt.InstantiateModule(p.ctx, p.cm, p.conf.WithName(fmt.Sprintf("%s#%d", p.Name, p.ninst)))
+	in.mon = NewMonitor(in.Poison)
+	in.mon.RecordKinds, in.mon.OpKind, in.mon.MaxEvents = p.RecordKinds, p.OpKind, p.MaxEvents
+	p.seq++
+	in.out.Reset()
+	p.cur = in
+	mod, err := p.rt.InstantiateModule(p.ctx, p.cm, p.conf.WithName(fmt.Sprintf("%s#%d", p.Name, p.seq)))
 	if err != nil {
 		return err
 	}
-	p.mod = mod
+	in.mod = mod
 	return nil
 }
 
-// Call runs one exported function; a fresh instance (and monitor) is made after any trap.
-func (p *Program) Call(name string) (res CallResult) {
-	if p.mod == nil {
-		res.Fresh = true
-		if err := p.instantiate(); err != nil {
+func (in *Instance) output() string {
+	in.omu.Lock()
+	defer in.omu.Unlock()
+	return in.out.String()
+}
+
+// Call runs one exported function; a fresh module instance (and monitor) is made after any trap.
+func (in *Instance) Call(name string) (res CallResult) {
+	p := in.p
+	p.cur = in
+	if in.mod == nil {
+		if err := in.instantiate(); err != nil {
 			res.Status, res.Err = "trap", "instantiate: "+firstLine(err.Error())
-			res.Out = p.out.String()
-			if p.mon != nil {
-				res.Violations = p.mon.Violations
+			res.Out = in.output()
+			if in.mon != nil {
+				res.Violations = in.mon.Violations
 			}
-			p.mod = nil
+			in.mod = nil
 			return
 		}
 	}
-	p.out.Reset()
-	p.mon.BeginCase()
-	fn := p.mod.ExportedFunction(name)
+	in.omu.Lock()
+	in.out.Reset()
+	in.omu.Unlock()
+	in.mon.BeginCase()
+	fn := in.mod.ExportedFunction(name)
 	if fn == nil {
 		return CallResult{Status: "trap", Err: "no exported function " + name}
 	}
@@ -647,20 +711,85 @@ func (p *Program) Call(name string) (res CallResult) {
 		}()
 		_, err = fn.Call(p.ctx)
 	}()
-	res.Out = p.out.String()
-	res.Violations, res.Records = p.mon.Violations, p.mon.Records
+	res.Out = in.output()
+	res.Violations, res.Records, res.Mark = in.mon.Violations, in.mon.Records, in.mon.curMark
 	if err != nil {
 		res.Status = "trap"
 		res.Err = firstLine(err.Error())
 		if ee, ok := err.(*sys.ExitError); ok {
 			res.Err = fmt.Sprintf("exit(%d)", ee.ExitCode())
 		}
-		p.mod.Close(p.ctx)
-		p.mod = nil
+		in.mod.Close(p.ctx)
+		in.mod = nil
 		return
 	}
 	res.Status = "ok"
+	if len(res.Violations) > 0 {
+		// the heap of this instance can no longer be trusted: the next case gets a fresh one, so
+		// a violation is always attributable to the case that shows it
+		in.mod.Close(p.ctx)
+		in.mod = nil
+	}
 	return
+}
+
+// cpuSeconds: user+system CPU time consumed by this process so far.
+func cpuSeconds() float64 {
+	var ru syscall.Rusage
+	if syscall.Getrusage(syscall.RUSAGE_SELF, &ru) != nil {
+		return 0
+	}
+	return float64(ru.Utime.Sec+ru.Stime.Sec) + float64(ru.Utime.Usec+ru.Stime.Usec)/1e6
+}
+
+// CallWatched is Call with a watchdog. The budget is CPU time of this process, not wall-clock
+// time (a hung case burns CPU; a starved machine does not make a healthy case look hung): when
+// the call has not returned after the process consumed cpuBudget CPU-seconds since the call
+// started (or after the wall-clock cap, a last resort), a snapshot of what the monitor saw so
+// far is returned with Status "hang". Instantiation is not part of the watched region. The
+// goroutine stuck in the engine cannot be stopped: the caller must not use the Program any more
+// and the process should exit soon (the worker pool retires it).
+func (in *Instance) CallWatched(name string, cpuBudget float64, wallCap time.Duration) CallResult {
+	if in.mod == nil {
+		in.p.cur = in
+		if err := in.instantiate(); err != nil {
+			res := CallResult{Status: "trap", Err: "instantiate: " + firstLine(err.Error()), Out: in.output(), Mark: -1}
+			if in.mon != nil {
+				res.Violations = in.mon.Violations
+			}
+			in.mod = nil
+			return res
+		}
+	}
+	done := make(chan CallResult, 1)
+	go func() { done <- in.Call(name) }()
+	cpu0, t0 := cpuSeconds(), time.Now()
+	tick := time.NewTicker(200 * time.Millisecond)
+	defer tick.Stop()
+	why := ""
+	for why == "" {
+		select {
+		case r := <-done:
+			return r
+		case <-tick.C:
+			if c := cpuSeconds() - cpu0; c > cpuBudget {
+				why = fmt.Sprintf("no return after %.0f CPU-seconds (%.0fs wall)", c, time.Since(t0).Seconds())
+			} else if time.Since(t0) > wallCap {
+				why = fmt.Sprintf("no return after %.0fs wall (%.1f CPU-seconds)", time.Since(t0).Seconds(), c)
+			}
+		}
+	}
+	res := CallResult{Status: "hang", Err: why, Mark: -1}
+	if mo := in.mon; mo != nil {
+		mo.mu.Lock()
+		res.Violations = append([]Violation(nil), mo.Violations...)
+		res.Records = append([]Record(nil), mo.Records...)
+		res.Mark = mo.curMark
+		res.Err += "; last events: " + strings.Join(mo.trace(), " ")
+		mo.mu.Unlock()
+	}
+	res.Out = in.output()
+	return res
 }
 
 func firstLine(s string) string {
